@@ -528,26 +528,29 @@ func startWatchdog(cfg WorkerConfig, timeoutS int) func() {
 // runningLibraryFrame extracts the innermost library frame of the goroutine
 // that is executing the run (the one with RunOne on its stack).
 func runningLibraryFrame(stacks string) string {
-	for _, g := range strings.Split(stacks, "\n\n") {
-		if !strings.Contains(g, "core.RunOne") {
-			continue
+	// prefer the goroutine that is executing (running or runnable) library
+	// code; the run may be inside a synctest bubble, i.e. not on the stack of
+	// RunOne's goroutine
+	blocks := strings.Split(stacks, "\n\n")
+	for _, pass := range []int{0, 1} {
+		for _, g := range blocks {
+			if !strings.Contains(g, "seehuhn.de/go/") {
+				continue
+			}
+			head := g
+			if i := strings.Index(g, "\n"); i > 0 {
+				head = g[:i]
+			}
+			busy := strings.Contains(head, "[running") || strings.Contains(head, "[runnable")
+			if pass == 0 && !busy {
+				continue
+			}
+			if f := topLibraryFrame([]byte(g)); f != "?" {
+				return f
+			}
 		}
-		return topLibraryFrame([]byte(g))
 	}
 	return "?"
-}
-
-func sortedCounts(m map[string]int) string {
-	ks := make([]string, 0, len(m))
-	for k := range m {
-		ks = append(ks, k)
-	}
-	sort.Strings(ks)
-	var sb strings.Builder
-	for _, k := range ks {
-		fmt.Fprintf(&sb, "%s=%d;", k, m[k])
-	}
-	return sb.String()
 }
 
 // ReplayFile is the on-disk replay format.
@@ -610,4 +613,17 @@ func StartReplayWatchdog(out string, timeoutS int) func() {
 	currentRun.Store(-2)
 	stop := startWatchdog(WorkerConfig{Out: out}, timeoutS)
 	return func() { currentStart.Store(0); stop() }
+}
+
+func sortedCounts(m map[string]int) string {
+	ks := make([]string, 0, len(m))
+	for k := range m {
+		ks = append(ks, k)
+	}
+	sort.Strings(ks)
+	var sb strings.Builder
+	for _, k := range ks {
+		fmt.Fprintf(&sb, "%s=%d;", k, m[k])
+	}
+	return sb.String()
 }
